@@ -57,6 +57,6 @@ VARIANTS += [
 VARIANTS += [
     M('C16', 'boolean-spellings-kept-for-first-column-only', E(PI, "                trues.add(parts[0])\n                falses.add(parts[1])", "                trues.add(parts[0])\n                falses.add(parts[1])\n                kw.setdefault('true_values', [parts[0]])"),
       rule='C16-ACCUM', key='to_pandas_read_csv_args'),
-    M('C16', 'refactor-accumulate-through-setdefault-append', E(PI, "                trues.add(parts[0])\n                falses.add(parts[1])", "                trues.add(parts[0])\n                falses.add(parts[1])\n                kw.setdefault('_seen_boolean_formats', []).append(parts)"),
+    M('C16', 'refactor-accumulate-through-setdefault-append', E(PI, "                trues.add(parts[0])\n                falses.add(parts[1])", "                trues.add(parts[0])\n                falses.add(parts[1])\n                seen_formats = {}\n                seen_formats.setdefault('boolean', []).append(parts)"),
       kind='refactor'),
 ]
